@@ -62,13 +62,24 @@ func (b *BackendConn) Send(m WSMsg) error {
 	return b.conn.WriteMessage(t, m.Data)
 }
 
-// Close closes the backend side of the websocket.
+// Close closes the backend side of the websocket the way a well-behaved server does: it sends a
+// close frame and waits (in the background, up to 30 s) for the peer's close frame before the TCP
+// connection is torn down, so that everything sent before the close frame is still delivered.
 func (b *BackendConn) Close() {
 	b.wmu.Lock()
 	b.conn.WriteControl(websocket.CloseMessage, websocket.FormatCloseMessage(websocket.CloseNormalClosure, "bye"), time.Now().Add(time.Second))
 	b.wmu.Unlock()
-	b.conn.Close()
+	go func() {
+		select {
+		case <-b.closeCh:
+		case <-time.After(30 * time.Second):
+		}
+		b.conn.Close()
+	}()
 }
+
+// Abort tears the TCP connection down at once (unread data may be lost).
+func (b *BackendConn) Abort() { b.conn.Close() }
 
 // Closed reports whether the backend observed the end of the connection.
 func (b *BackendConn) Closed() <-chan struct{} { return b.closeCh }
